@@ -79,3 +79,16 @@ CLAIMED.update({
              "and the SDK order-fee-discount copy. Trusted: kani-compiler + CBMC; the key -> parameter table in harness/store/src/c16_config_keys.rs.",
         technique="Kani/CBMC differential execution of the SDK and program model-trait impls over the same arbitrary account image", design="C40"),
 })
+
+CLAIMED.update({
+    "C22": dict(
+        text=BOUNDED + "function level only: the real ValidateMarketBalances::validate_market_balance_for_the_given_token (quick) and validate_market_balances for a two-token market (thorough) return Ok "
+             "exactly when the recorded balance of the token minus the excluded amount is at least liquidity + swap-impact + claimable-fee of that token side and, separately, at least the total position "
+             "collateral of that side (exact u128 sums; an overflowing sum or an excluded amount above the balance fails), for all u128 pool amounts and all u64 balances / excluded amounts, read through "
+             "the real Market pool accessors and gmsol_model::BaseMarketExt.",
+        note="The statement 'after every successful instruction, for all histories, across markets sharing a vault, recorded balances never exceed the vault balance' needs the Anchor instruction layer and "
+             "SPL-token state and is NOT decided; neither are RevertibleMarket::record_transferred_in/out (account loaders). Bank::balance is restated in the harness view type (long balance for the long "
+             "token or a pure market, short balance otherwise); the single-token (pure) variant of validate_market_balances does not finish and is kept experimental. Mints are two fixed constants. "
+             "Trusted: kani-compiler + CBMC.",
+        technique="Kani/CBMC symbolic execution of the real balance-validation code over arbitrary pool amounts and balances, exact solvency oracle", design="C22"),
+})
